@@ -197,7 +197,7 @@ CLAIMS.update({
     "C07": dict(
         technique="Lean 4 theorems (append-shortcut decision rule; worker-level convergence from the run contracts: bookkeeping survives every run, rebuilding runs repair, incremental runs preserve, quiescent = from scratch) + end-to-end comparison of every quiescent history with a fresh Nucleo",
         text="Theorems: the Update shortcut is taken only for a truthful append onto a column not already due for a rescore whose last atom is positive, not "
-             "postfix/exact, does not end in a backslash and (unless fuzzy) not in an escaped dollar (repair of F9), and which keeps normalizing the haystack if it did (repair of F16); can_append_to itself is translated from src/pattern.rs on every run and proved to be the model's rule (companion file C07_Translated); with decided witnesses that each excluded class is not a "
+             "postfix/exact, does not end in a backslash and (unless fuzzy) not in an escaped dollar (repair of F9), and which keeps normalizing the haystack if it did (repair of F16); can_append_to and the status decision of MultiPattern::reparse (both ifs, with the repair of F16) are translated from src/pattern.rs on every run and proved to be the model's rule (companion file C07_Translated); with decided witnesses that each excluded class is not a "
              "narrowing; appending text changes only the last atom (companion file C07_Append: the splitter is a left-to-right scan with one bit of state, so every piece of the old "
              "text but the last is a piece of the new text and the atoms parsed from them are the first atoms of the new pattern, unchanged and in order - "
              "C07_append_keeps_earlier_atoms; the narrowing property the shortcut needs therefore concerns the last atom alone, which is what can_append_to inspects; for the fuzzy kind and a fixed "
